@@ -395,8 +395,12 @@ macro_rules! general_bs {
 }
 
 fn real_key<C: KeyInit>(key: &[u8], tag: u8) -> Traced<C> {
+    // see SimCipher::with_tag: with a wrong-length slice this instance is never used
+    let mut k = vec![0u8; C::key_size()];
+    let n = key.len().min(k.len());
+    k[..n].copy_from_slice(&key[..n]);
     Traced {
-        inner: C::new_from_slice(key).expect("harness: real cipher key length"),
+        inner: C::new_from_slice(&k).expect("harness: real cipher key"),
         tag,
     }
 }
